@@ -237,9 +237,12 @@ def run_report_path(rng, out):
 
     clockrate, events, feats = gen_history(rng)
     desc = {"kind": "report-path", "feats": feats, "n": len(events)}
-    rig = ReceiverRig(rng, kind="video", clockrate=90000)
+    with_rtx = rng.random() < 0.5
+    rig = ReceiverRig(rng, kind="video", clockrate=90000, rtx_ssrc=4343 if with_rtx else None)
     try:
         model = Model(90000)
+        model_rtx = Model(90000)  # the retransmission stream is a stream of its own (RFC 4588): own block, own figures
+        rtx_seq = rng.randrange(65536)
         ssrc = 4242
         # same arrival pattern, but idle gaps are capped at 20 s (the RTCP loop runs every 0.5-1.5 s of virtual time)
         rel, prev, acc = [], events[0][2], 0.0
@@ -253,9 +256,17 @@ def run_report_path(rng, out):
             # reports the receiver emitted meanwhile are compared before the model moves on
             for rr_pkt in rig.take_receiver_reports():
                 compare_wire_report(rr_pkt, model, ssrc, out, desc, i)
+                if with_rtx:
+                    compare_wire_report(rr_pkt, model_rtx, 4343, out, desc, i)
             model.add(seq, ts, rig.clock_now())
             rig.feed_rtp(seq, ts, ssrc)
             out.counters["adds_checked"] += 1
+            if with_rtx and rng.random() < 0.05:
+                # a retransmission of some earlier packet arrives on the RTX stream: the primary stream's figures do not move
+                model_rtx.add(rtx_seq, ts, rig.clock_now())
+                rig.feed_rtx(rtx_seq, ts, (seq - rng.randint(1, 40)) & 0xFFFF)
+                rtx_seq = (rtx_seq + rng.choice([1, 1, 1, 2])) & 0xFFFF
+                out.counters["rtx_packets_fed"] += 1
             if rng.random() < 0.03:
                 # the application looks at getStats() between two reports: same figures, and the next report is not disturbed
                 try:
@@ -276,6 +287,8 @@ def run_report_path(rng, out):
         rig.advance_to(rel[len(events) - 1] + 3.0)
         for rr_pkt in rig.take_receiver_reports():
             compare_wire_report(rr_pkt, model, ssrc, out, desc, len(events))
+            if with_rtx:
+                compare_wire_report(rr_pkt, model_rtx, 4343, out, desc, len(events))
         if rig.rtcp_task_dead():
             out.fail("rtcp-task-died", f"the receiver's RTCP task ended: {rig.rtcp_task_error()}", desc)
         out.counters["report_path_histories"] += 1
@@ -288,6 +301,9 @@ def run_report_path(rng, out):
 
 
 def compare_wire_report(pkt, model, ssrc, out, desc, i):
+    if model.max is not None and not any(info.ssrc == ssrc for info in pkt.reports):
+        out.fail("report-block-missing", f"RR on the wire before packet {i} has no block for SSRC {ssrc} although {model.received} packets of it "
+                 f"were received (blocks: {[r.ssrc for r in pkt.reports]})", desc | {"at": i})
     for info in pkt.reports:
         if info.ssrc != ssrc or model.max is None:
             continue
